@@ -17,6 +17,63 @@ pub fn clear_interrupt() {
     crate::machine::INTERRUPT.store(false, Ordering::Relaxed);
 }
 
+/// C30: plans an allocation fault for the heaps of the calling thread and resets the grow
+/// counters: the `k`-th heap growth (`InnerHeap::grow`, any `Heap` of the thread: the machine's
+/// heap, the ball, findall's lifted heap ...) from now on fails like a failed allocation
+/// (`k == 0`: none; growths are only counted). With `persistent` all later growths fail too.
+pub fn set_grow_fault(k: usize, persistent: bool) {
+    crate::machine::heap::verif_set_grow_fault(k, persistent);
+}
+
+/// C30: `(heap growths attempted, heap growths denied)` on this thread since the last
+/// `set_grow_fault`.
+pub fn grow_fault_stats() -> (usize, usize) {
+    crate::machine::heap::verif_grow_fault_stats()
+}
+
+thread_local! {
+    // (instructions dispatched since the last `set_interrupt_at`, raise the flag when the count
+    //  reaches this value (0 = never), count at which the flag was last consumed by a poll (0 = not))
+    static INSTR: std::cell::Cell<(u64, u64, u64)> = const { std::cell::Cell::new((0, 0, 0)) };
+}
+
+/// C31: resets the dispatched-instruction counter of this thread; the interrupt flag is raised
+/// just before the `n`-th instruction from now is dispatched (`n == 0`: never, count only).
+pub fn set_interrupt_at(n: u64) {
+    INSTR.with(|c| c.set((0, n, 0)));
+}
+
+/// C31: `(instructions dispatched since the last set_interrupt_at, count at which a poll consumed
+/// the flag or 0)`.
+pub fn instr_stats() -> (u64, u64) {
+    INSTR.with(|c| {
+        let (n, _, d) = c.get();
+        (n, d)
+    })
+}
+
+/// C31: called by the dispatch loops once per dispatched instruction.
+#[inline]
+pub(crate) fn instr_tick() {
+    INSTR.with(|c| {
+        let (n, at, d) = c.get();
+        let n = n + 1;
+        if n == at {
+            crate::machine::INTERRUPT.store(true, Ordering::Relaxed);
+        }
+        c.set((n, at, d));
+    });
+}
+
+/// C31: called by `check_for_interrupt` when it consumes a raised flag.
+#[inline]
+pub(crate) fn note_interrupt_delivery() {
+    INSTR.with(|c| {
+        let (n, at, d) = c.get();
+        c.set((n, at, if d == 0 { n.max(1) } else { d }));
+    });
+}
+
 /// Drives the buffered UTF-8 character reader (`parser::char_reader::CharReader`, C18) over a
 /// scripted `Read` that hands out `chunks` one per `read` call and then reports end of input.
 /// `script` is a sequence of `p` (peek_char), `r` (read_char; after a bad-UTF-8 error the
